@@ -130,9 +130,8 @@ class RenderContext:
         if not isinstance(root, str):
             # A bracketed root segment, like `[x]`, that is not a variable name.
             if default == UNDEFINED:
-                kind = root.__class__.__name__
-                hint = f"expected a variable name, found {kind}"
-                return self.env.undefined(f"<{kind}>", hint=hint, token=token)
+                hint = "a variable name must be a string"
+                return self.env.undefined("<not a name>", hint=hint, token=token)
             return default
 
         try:
@@ -173,9 +172,8 @@ class RenderContext:
         if not isinstance(root, str):
             # A bracketed root segment, like `[x]`, that is not a variable name.
             if default == UNDEFINED:
-                kind = root.__class__.__name__
-                hint = f"expected a variable name, found {kind}"
-                return self.env.undefined(f"<{kind}>", hint=hint, token=token)
+                hint = "a variable name must be a string"
+                return self.env.undefined("<not a name>", hint=hint, token=token)
             return default
 
         try:
